@@ -323,36 +323,46 @@ do_hash(char * l)
 	size_t len, off = 0;
 	uint8_t * buf, dig[32], one[32];
 	size_t dl;
-	int zero;
+	int zero, npd = 0;
+#define NPD 6
+	uint8_t pd[NPD][32];
 
 	if (sscanf(l, "hash %15s %8191s %d %524287s", alg, cutss, &align, hex) != 4) return;
 	len = unhex(hex, msg, sizeof(msg));
 	ncuts = parse_cuts(cutss, cuts, 1024);
 	buf = malloc(len + (size_t)align + 1);
 	memcpy(buf + align, msg, len);
+	/* The context is a plain value: after every update it is moved to a new block (the old one is poisoned and released),
+	 * and a copy of it is finalised to read the digest of what has been fed so far (PBKDF2_SHA256 forks contexts the same way). */
+#define STREAM(CTX, INIT, UPDATE, FINAL, COUNT) do {								\
+	CTX * cp = __real_malloc(sizeof(CTX)), * q, snap;							\
+	INIT(cp);												\
+	for (i = 0; i < ncuts; i++) {										\
+		UPDATE(cp, buf + align + off, (size_t)cuts[i]); off += (size_t)cuts[i]; counts[i] = (long)(COUNT);	\
+		if (i < NPD) { memcpy(&snap, cp, sizeof(CTX)); FINAL(pd[i], &snap); npd = i + 1; }		\
+		q = __real_malloc(sizeof(CTX)); memcpy(q, cp, sizeof(CTX)); memset(cp, 0xA5, sizeof(CTX));	\
+		__real_free(cp); cp = q;									\
+	}													\
+	FINAL(dig, cp); zero = allzero(cp, sizeof(CTX)); __real_free(cp);					\
+} while (0)
 	if (strcmp(alg, "sha256") == 0) {
-		SHA256_CTX c; dl = 32;
-		SHA256_Init(&c);
-		for (i = 0; i < ncuts; i++) { SHA256_Update(&c, buf + align + off, (size_t)cuts[i]); off += (size_t)cuts[i]; counts[i] = (long)(c.count >> 3); }
-		SHA256_Final(dig, &c); zero = allzero(&c, sizeof(c));
+		dl = 32;
+		STREAM(SHA256_CTX, SHA256_Init, SHA256_Update, SHA256_Final, cp->count >> 3);
 		SHA256_Buf(buf + align, len, one);
 	} else if (strcmp(alg, "sha1") == 0) {
-		SHA1_CTX c; dl = 20;
-		SHA1_Init(&c);
-		for (i = 0; i < ncuts; i++) { SHA1_Update(&c, buf + align + off, (size_t)cuts[i]); off += (size_t)cuts[i]; counts[i] = (long)off; }
-		SHA1_Final(dig, &c); zero = allzero(&c, sizeof(c));
+		dl = 20;
+		STREAM(SHA1_CTX, SHA1_Init, SHA1_Update, SHA1_Final, off);
 		SHA1_Buf(buf + align, len, one);
 	} else {
-		MD5_CTX c; dl = 16;
-		MD5_Init(&c);
-		for (i = 0; i < ncuts; i++) { MD5_Update(&c, buf + align + off, (size_t)cuts[i]); off += (size_t)cuts[i]; counts[i] = (long)off; }
-		MD5_Final(dig, &c); zero = allzero(&c, sizeof(c));
+		dl = 16;
+		STREAM(MD5_CTX, MD5_Init, MD5_Update, MD5_Final, off);
 		MD5_Buf(buf + align, len, one);
 	}
 	vt_begin("hash"); vt_str("alg", alg); vt_str("msg", strcmp(hex, "-") ? hex : "");
 	fprintf(vt_out, ",\"cuts\":["); for (i = 0; i < ncuts; i++) fprintf(vt_out, "%s%ld", i ? "," : "", cuts[i]); fprintf(vt_out, "]");
 	fprintf(vt_out, ",\"counts\":["); for (i = 0; i < ncuts; i++) fprintf(vt_out, "%s%ld", i ? "," : "", counts[i]); fprintf(vt_out, "]");
 	vt_hex("digest", dig, dl); vt_hex("oneshot", one, dl); vt_bool("zero", zero); vt_int("align", align);
+	fprintf(vt_out, ",\"pdig\":["); for (i = 0; i < npd; i++) { fprintf(vt_out, "%s\"", i ? "," : ""); { size_t j; for (j = 0; j < dl; j++) fprintf(vt_out, "%02x", pd[i][j]); } fprintf(vt_out, "\""); } fprintf(vt_out, "]");
 	{
 		/* the one-shot call with the digest written over the beginning of the message */
 		uint8_t * tm = __real_malloc((len > dl ? len : dl) + 1);
@@ -372,29 +382,36 @@ do_hmac(char * l)
 	long cuts[1024];
 	int ncuts, i, zero;
 	size_t len, klen, off = 0, dl;
-	uint8_t dig[32], one[32];
+	uint8_t dig[32], one[32], pd[NPD][32];
+	long pdo[NPD];
+	int npd = 0;
 
 	if (sscanf(l, "hmac %15s %8191s %8191s %524287s", alg, khex, cutss, hex) != 4) return;
 	klen = unhex(khex, key, sizeof(key));
 	len = unhex(hex, msg, sizeof(msg));
 	ncuts = parse_cuts(cutss, cuts, 1024);
+#define HSTREAM(CTX, INIT, UPDATE, FINAL) do {									\
+	CTX * cp = __real_malloc(sizeof(CTX)), * q, snap;							\
+	INIT(cp, key, klen);											\
+	for (i = 0; i < ncuts; i++) {										\
+		UPDATE(cp, msg + off, (size_t)cuts[i]); off += (size_t)cuts[i];					\
+		if (i < NPD) { memcpy(&snap, cp, sizeof(CTX)); FINAL(pd[i], &snap); pdo[i] = (long)off; npd = i + 1; }	\
+		q = __real_malloc(sizeof(CTX)); memcpy(q, cp, sizeof(CTX)); memset(cp, 0xA5, sizeof(CTX));	\
+		__real_free(cp); cp = q;									\
+	}													\
+	FINAL(dig, cp); zero = allzero(cp, sizeof(CTX)); __real_free(cp);					\
+} while (0)
 	if (strcmp(alg, "sha256") == 0) {
-		HMAC_SHA256_CTX c; dl = 32;
-		HMAC_SHA256_Init(&c, key, klen);
-		for (i = 0; i < ncuts; i++) { HMAC_SHA256_Update(&c, msg + off, (size_t)cuts[i]); off += (size_t)cuts[i]; }
-		HMAC_SHA256_Final(dig, &c); zero = allzero(&c, sizeof(c));
+		dl = 32;
+		HSTREAM(HMAC_SHA256_CTX, HMAC_SHA256_Init, HMAC_SHA256_Update, HMAC_SHA256_Final);
 		HMAC_SHA256_Buf(key, klen, msg, len, one);
 	} else if (strcmp(alg, "sha1") == 0) {
-		HMAC_SHA1_CTX c; dl = 20;
-		HMAC_SHA1_Init(&c, key, klen);
-		for (i = 0; i < ncuts; i++) { HMAC_SHA1_Update(&c, msg + off, (size_t)cuts[i]); off += (size_t)cuts[i]; }
-		HMAC_SHA1_Final(dig, &c); zero = allzero(&c, sizeof(c));
+		dl = 20;
+		HSTREAM(HMAC_SHA1_CTX, HMAC_SHA1_Init, HMAC_SHA1_Update, HMAC_SHA1_Final);
 		HMAC_SHA1_Buf(key, klen, msg, len, one);
 	} else {
-		HMAC_MD5_CTX c; dl = 16;
-		HMAC_MD5_Init(&c, key, klen);
-		for (i = 0; i < ncuts; i++) { HMAC_MD5_Update(&c, msg + off, (size_t)cuts[i]); off += (size_t)cuts[i]; }
-		HMAC_MD5_Final(dig, &c); zero = allzero(&c, sizeof(c));
+		dl = 16;
+		HSTREAM(HMAC_MD5_CTX, HMAC_MD5_Init, HMAC_MD5_Update, HMAC_MD5_Final);
 		HMAC_MD5_Buf(key, klen, msg, len, one);
 	}
 	{
@@ -408,7 +425,10 @@ do_hmac(char * l)
 		else { HMAC_MD5_Buf(key, klen, tm, len, tm); memcpy(overm, tm, dl); HMAC_MD5_Buf(tk, klen, msg, len, tk); memcpy(overk, tk, dl); }
 		__real_free(tm); __real_free(tk);
 		vt_begin("hmac"); vt_str("alg", alg); vt_str("key", strcmp(khex, "-") ? khex : ""); vt_str("msg", strcmp(hex, "-") ? hex : "");
-		vt_hex("digest", dig, dl); vt_hex("oneshot", one, dl); vt_hex("overmsg", overm, dl); vt_hex("overkey", overk, dl); vt_bool("zero", zero); vt_end();
+		vt_hex("digest", dig, dl); vt_hex("oneshot", one, dl); vt_hex("overmsg", overm, dl); vt_hex("overkey", overk, dl); vt_bool("zero", zero);
+		fprintf(vt_out, ",\"pdo\":["); for (i = 0; i < npd; i++) fprintf(vt_out, "%s%ld", i ? "," : "", pdo[i]); fprintf(vt_out, "]");
+		fprintf(vt_out, ",\"pdig\":["); for (i = 0; i < npd; i++) { size_t j; fprintf(vt_out, "%s\"", i ? "," : ""); for (j = 0; j < dl; j++) fprintf(vt_out, "%02x", pd[i][j]); fprintf(vt_out, "\""); } fprintf(vt_out, "]");
+		vt_end();
 	}
 }
 
@@ -468,18 +488,32 @@ do_crc(char * l)
 	long cuts[1024];
 	int align, ncuts, i;
 	size_t len, off = 0;
-	uint8_t * buf, dig[4];
-	CRC32C_CTX c;
+	uint8_t * buf, dig[4], pd[NPD][4];
+	CRC32C_CTX * cp;
+	long pdo[NPD];
+	int npd = 0;
 
 	if (sscanf(l, "crc %8191s %d %524287s", cutss, &align, hex) != 3) return;
 	len = unhex(hex, msg, sizeof(msg));
 	ncuts = parse_cuts(cutss, cuts, 1024);
 	buf = malloc(len + (size_t)align + 1);
 	memcpy(buf + align, msg, len);
-	CRC32C_Init(&c);
-	for (i = 0; i < ncuts; i++) { CRC32C_Update(&c, buf + align + off, (size_t)cuts[i]); off += (size_t)cuts[i]; }
-	CRC32C_Final(dig, &c);
-	vt_begin("crc"); vt_str("msg", strcmp(hex, "-") ? hex : ""); vt_int("align", align); vt_hex("out", dig, 4); vt_end();
+	/* (the context is a plain value: moved after every update, and read through a copy - CRC32C_Final takes it const) */
+	cp = __real_malloc(sizeof(CRC32C_CTX));
+	CRC32C_Init(cp);
+	for (i = 0; i < ncuts; i++) {
+		CRC32C_CTX * q, snap;
+		CRC32C_Update(cp, buf + align + off, (size_t)cuts[i]); off += (size_t)cuts[i];
+		if (i < NPD) { memcpy(&snap, cp, sizeof(snap)); CRC32C_Final(pd[i], &snap); pdo[i] = (long)off; npd = i + 1; }
+		q = __real_malloc(sizeof(CRC32C_CTX)); memcpy(q, cp, sizeof(CRC32C_CTX)); memset(cp, 0xA5, sizeof(CRC32C_CTX));
+		__real_free(cp); cp = q;
+	}
+	CRC32C_Final(dig, cp);
+	__real_free(cp);
+	vt_begin("crc"); vt_str("msg", strcmp(hex, "-") ? hex : ""); vt_int("align", align); vt_hex("out", dig, 4);
+	fprintf(vt_out, ",\"pdo\":["); for (i = 0; i < npd; i++) fprintf(vt_out, "%s%ld", i ? "," : "", pdo[i]); fprintf(vt_out, "]");
+	fprintf(vt_out, ",\"pdig\":["); for (i = 0; i < npd; i++) fprintf(vt_out, "%s\"%02x%02x%02x%02x\"", i ? "," : "", pd[i][0], pd[i][1], pd[i][2], pd[i][3]); fprintf(vt_out, "]");
+	vt_end();
 	free(buf);
 }
 
@@ -653,8 +687,10 @@ do_sig(char * l)
 
 	if (sscanf(l, "sig %15s %lld %1023s %1023s %1023s %1023s %1023s %1023s %524287s %d", var, &t, f[0], f[1], f[2], f[3], f[4], f[5], bodyhex, &expiry) < 9) return;
 	for (i = 0; i < 6; i++) { size_t n = unhex(f[i], (uint8_t *)s[i], 511); s[i][n] = 0; }
-	havebody = strcmp(bodyhex, "none") != 0;
+	/* "none" or "none:N": no body (NULL), with a length argument of N - only a body that exists has a length that counts */
+	havebody = strncmp(bodyhex, "none", 4) != 0;
 	if (havebody) blen = unhex(bodyhex, msg, sizeof(msg));
+	else if (bodyhex[4] == ':') blen = (size_t)atoll(bodyhex + 5);
 	fake_time = (time_t)t;
 	if (strcmp(var, "s3h") == 0) rc = aws_sign_s3_headers(s[0], s[1], s[2], s[3], s[4], s[5], havebody ? msg : NULL, blen, &sha, &date, &auth);
 	else if (strcmp(var, "s3q") == 0) { q = aws_sign_s3_querystr(s[0], s[1], s[2], s[3], s[4], s[5], expiry); rc = q ? 0 : -1; }
